@@ -119,6 +119,7 @@ type Exec struct {
 	dbg    map[string][]ssa.Value
 	callN  map[string]int
 	top    *Exec
+	callRes       map[string]Value
 	initMode      bool
 	forceInline   map[string]bool
 	appendMustFit bool
